@@ -46,7 +46,7 @@ class BoltzmannResults:
             Deltas=number * self.Deltas,
             truncationError=abs(number) * self.truncationError,
             linearizationCriterion1=abs(number) * self.linearizationCriterion1,
-            linearizationCriterion2=self.linearizationCriterion2,
+            linearizationCriterion2=abs(number) * self.linearizationCriterion2,
         )
 
     def __rmul__(self, number: float) -> "BoltzmannResults":
@@ -55,7 +55,7 @@ class BoltzmannResults:
             Deltas=number * self.Deltas,
             truncationError=abs(number) * self.truncationError,
             linearizationCriterion1=abs(number) * self.linearizationCriterion1,
-            linearizationCriterion2=self.linearizationCriterion2,
+            linearizationCriterion2=abs(number) * self.linearizationCriterion2,
         )
 
     def __add__(self, other: "BoltzmannResults") -> "BoltzmannResults":
